@@ -186,19 +186,38 @@ def corruptions(kind, spec, other_state="zz9", other_symbol="k"):
             out.append(("undeclared_symbol", add("%s %s %s" % (q, q, other_symbol))))
     elif kind == "nfa":
         out.append(("undeclared_symbol", add("%s %s %s" % (q, q, other_symbol))))
-    elif kind == "pda":
+    if kind in ("dfa", "nfa") and spec["S"]:
+        a = spec["S"][0]
+        out.append(("label_in_pda_format", add("%s %s %s,%s%s" % (q, q, a, a, a))))
+        out.append(("label_in_tm_format", add("%s %s %s%s,R" % (q, q, a, a))))
+    if kind == "pda":
         eps = spec["eps"]
         out.append(("undeclared_input_symbol", add("%s %s %s,%s%s" % (q, q, other_symbol, eps, eps))))
         out.append(("undeclared_stack_symbol", add("%s %s %s,%s%s" % (q, q, eps, eps, "K"))))
         out.append(("malformed_label_short", add("%s %s %s,%s" % (q, q, eps, eps))))
         out.append(("malformed_label_no_comma", add("%s %s %s%s%s" % (q, q, eps, eps, eps))))
         out.append(("malformed_label_long", add("%s %s %s,%s%s%s" % (q, q, eps, eps, eps, eps))))
-    else:
+        out.append(("label_in_tm_format", add("%s %s %s%s,R" % (q, q, eps, eps))))
+        out.append(("label_in_fa_format", add("%s %s %s" % (q, q, spec["S"][0] if spec["S"] else eps))))
+    elif kind == "tm":
         b = spec["blank"]
         out.append(("undeclared_tape_symbol", add("%s %s %s%s,R" % (q, q, "K", b))))
         out.append(("malformed_label_direction", add("%s %s %s%s,X" % (q, q, b, b))))
         out.append(("malformed_label_short", add("%s %s %s,R" % (q, q, b))))
         out.append(("malformed_label_no_comma", add("%s %s %s%sR" % (q, q, b, b))))
+        out.append(("label_in_pda_format", add("%s %s %s,%s%s" % (q, q, b, b, b))))
+        out.append(("label_in_fa_format", add("%s %s %s" % (q, q, b))))
         if spec["S"]:
             out.append(("input_symbol_not_on_tape", decl("input_symbols", lambda l: l + " K")))
+    if kind in ("pda", "tm"):
+        # the same ill-formed labels in a description that leaves the alphabets to be derived from the transitions
+        bare = undeclared_base(kind, spec)
+        for name, text in list(out):
+            if name.startswith("malformed_label") or name.startswith("label_in_"):
+                out.append((name + "_alphabets_omitted", bare + "\n" + text.split("\n")[-1]))
     return out
+
+
+def undeclared_base(kind, spec):
+    """The description without the optional alphabet declarations (they are derived from the transitions then)."""
+    return render(kind, spec, {"group": False, "omit": ["input", "stack"] if kind == "pda" else (["input", "tape"] if kind == "tm" else [])})
